@@ -862,8 +862,12 @@ ExitStatus Builder::Build(string* err) {
         *err = "subcommand failed";
     } else if (failures_allowed < config_.failures_allowed)
       *err = "cannot make progress due to previous errors";
-    else
+    else {
+      // No command failed, so no exit code was recorded: do not let a build
+      // that cannot make progress pass for a successful one.
       *err = "stuck [this is a bug]";
+      SetFailureCode(ExitFailure);
+    }
 
     return GetExitCode();
   }
